@@ -508,6 +508,7 @@ type Contract struct {
 	Modifies   []SExpr
 	ModifiesAll bool
 	NoInline   bool
+	Glue       bool // only assert/ensures/frame obligations are generated for this function
 	Asserts    []AssertAt
 	File       string
 	Ghost      []string
@@ -591,7 +592,7 @@ func (sp *Specs) loadSpecFile(path, pkgPath string) error {
 		}
 		first := strings.Fields(trim)[0]
 		switch first {
-		case "func", "spec", "lemma", "axiom", "requires", "ensures", "loop", "inst", "allow_panic", "trusted", "pure", "modifies", "let", "package", "assert", "noinline", "ghost", "reveal", "inline":
+		case "func", "spec", "lemma", "axiom", "requires", "ensures", "loop", "inst", "allow_panic", "trusted", "pure", "modifies", "let", "package", "assert", "noinline", "ghost", "reveal", "inline", "glue":
 			clauses = append(clauses, rawClause{trim, i + 1})
 		default:
 			if len(clauses) == 0 {
@@ -742,6 +743,8 @@ func (sp *Specs) loadSpecFile(path, pkgPath string) error {
 			cur.Pure = true
 		case "noinline":
 			cur.NoInline = true
+		case "glue":
+			cur.Glue = true
 		case "ghost":
 			cur.Ghost = append(cur.Ghost, rest)
 		case "reveal":
@@ -827,11 +830,20 @@ func (sp *Specs) loadSpecFile(path, pkgPath string) error {
 			}
 			name := strings.TrimSpace(rest[:k])
 			body := strings.TrimSpace(rest[k+1:])
+			var insts []string
+			if bi := strings.Index(body, " by inst "); bi >= 0 {
+				for _, h := range strings.Split(body[bi+len(" by inst "):], ";") {
+					if strings.TrimSpace(h) != "" {
+						insts = append(insts, strings.TrimSpace(h))
+					}
+				}
+				body = strings.TrimSpace(body[:bi])
+			}
 			e, err := parseSpecExpr(body)
 			if err != nil {
 				return fmt.Errorf("%s:%d: %v", path, rc.line, err)
 			}
-			sp.Lemmas[pkgPath+"."+name] = &Lemma{Name: name, PkgPath: pkgPath, Expr: e, Src: body, Axiom: kw == "axiom"}
+			sp.Lemmas[pkgPath+"."+name] = &Lemma{Name: name, PkgPath: pkgPath, Expr: e, Src: body, Axiom: kw == "axiom", Insts: insts}
 		}
 	}
 	return nil
